@@ -36,6 +36,9 @@ has_ = force is not None or name in self.splicer_stack[-1] or default is not Non
         "implies(not has_, len(out) == n0 + 2 * b_)",
         # the returned flag does not depend on the comment option (C16)
         "result == has_",
+        # the user's block stays available: a name that is emitted again (another instantiation of a class template, a
+        # second file) gets the same code
+        "implies(name in old(self).splicer_stack[-1], name in self.splicer_stack[-1])",
     ],
     raises=[],
 )
